@@ -458,6 +458,13 @@ class QuicConn:
         if op == "ncid":
             d = bool(st["d"])
             cid = rbytes(rnd, st["len"])
+            cur = self.dcid_for[not d]            # the CID the peer currently uses to address d
+            if st.get("rel") == "ext" and cur and len(cur) < 20:
+                cid = cur + rbytes(rnd, max(1, min(st["len"], 20 - len(cur))))      # the new CID extends a CID in use
+                self.features.add("cid_prefix_related")
+            elif st.get("rel") == "prefix" and len(cur) > 1:
+                cid = cur[:max(1, min(st["len"], len(cur) - 1))]                     # the new CID is a prefix of a CID in use
+                self.features.add("cid_prefix_related")
             seq = len(self.issued[d]) + 1
             self.issued[d].append(cid)
             self.dgram(d, self.packet("app", d, f_new_cid(seq, 0, cid, rbytes(rnd, 16))))
